@@ -1,10 +1,13 @@
 // C15 correspondence harness, part 2: energy-loss fluctuation distributions
 // (EnergyLossHelper + Gamma / Gaussian / Urban) on a replayed stream, set up
 // as test/celeritas/em/distribution/EnergyLossHelper.test.cc does (argon).
-// stdin:  eloss <pid 0=e- 1=mu-> <energy MeV> <mean_loss MeV> <step cm> <cutoff MeV> <k> u...
+// stdin:  eloss <pid 0=e- 1=mu-> <material 0=Ar 1=H 2=C 3=Pb> <energy MeV> <mean_loss MeV> <step cm> <cutoff MeV> <k> u...
+//         urbanctor <material> <unscaled mean> <max_energy> <two_mebsgs> <beta_sq> <k> u...  (direct constructor)
+//         gaussN|gammadN <a> <b> <n> <k> u...   (n samples, mean-of-law oracle)
 //         gauss <mean> <stddev> <k> u...        (EnergyLossGaussianDistribution, n samples=2)
 //         gammad <mean> <var> <k> u...          (EnergyLossGammaDistribution)
 // stdout: eloss: "ok <model 0..3> <consumed|-1> <loss> mean max_energy beta_sq bohr_var two_mebsgs gamma mass
+//                 I logI be0 be1 logbe0 logbe1 f0 f1   (material inputs of the Urban constructor)
 //                 [urban state: max_energy loss_scaling be0 be1 xs0 xs1 xs_ion]"
 #include "../../../harness/common.hh"
 
@@ -51,9 +54,21 @@ struct Setup
         using namespace constants;
         using namespace units;
         MaterialParams::Input mat_inp;
-        mat_inp.elements = {{AtomicNumber{18}, AmuMass{39.948}, {}, "Ar"}};
-        mat_inp.materials = {{native_value_from(MolCcDensity{1.0}), 293.0,
-                              MatterState::solid, {{ElementId{0}, 1.0}}, "Ar"}};
+        // material 0 = argon as in the unit test; others reach the Urban
+        // constructor's other excitation branches (Z <= 2: single level only)
+        mat_inp.elements = {{AtomicNumber{18}, AmuMass{39.948}, {}, "Ar"},
+                            {AtomicNumber{1}, AmuMass{1.008}, {}, "H"},
+                            {AtomicNumber{6}, AmuMass{12.011}, {}, "C"},
+                            {AtomicNumber{82}, AmuMass{207.2}, {}, "Pb"}};
+        mat_inp.materials = {
+            {native_value_from(MolCcDensity{1.0}), 293.0, MatterState::solid,
+             {{ElementId{0}, 1.0}}, "Ar"},
+            {native_value_from(MolCcDensity{0.1}), 293.0, MatterState::gas,
+             {{ElementId{1}, 1.0}}, "H"},
+            {native_value_from(MolCcDensity{0.2}), 293.0, MatterState::solid,
+             {{ElementId{2}, 1.0}}, "C"},
+            {native_value_from(MolCcDensity{0.05}), 293.0, MatterState::solid,
+             {{ElementId{3}, 1.0}}, "Pb"}};
         materials = std::make_shared<MaterialParams>(std::move(mat_inp));
         ParticleParams::Input par_inp{
             {"electron", pdg::electron(), MevMass{0.5109989461},
@@ -79,6 +94,29 @@ int main()
         std::istringstream is(line);
         std::string kind;
         is >> kind;
+        if (kind == "gaussN" || kind == "gammadN")
+        {   // N samples from one distribution object (mean-of-law oracle)
+            double a = rd(is), b = rd(is);
+            int n; is >> n;
+            verif::ReplayEngine rng(verif::rdvec(is));
+            std::cout << "ok";
+            try
+            {
+                if (kind == "gaussN")
+                {
+                    EnergyLossGaussianDistribution d(MevEnergy{a}, MevEnergy{b});
+                    for (int i = 0; i < n; ++i) std::cout << " " << hex(d(rng).value());
+                }
+                else
+                {
+                    EnergyLossGammaDistribution d(MevEnergy{a}, EnergySq{b});
+                    for (int i = 0; i < n; ++i) std::cout << " " << hex(d(rng).value());
+                }
+            }
+            catch (verif::StreamExhausted const&) {}
+            std::cout << "\n";
+            continue;
+        }
         if (kind == "gauss" || kind == "gammad")
         {
             double a = rd(is), b = rd(is);
@@ -103,21 +141,55 @@ int main()
             catch (verif::StreamExhausted const&) { std::cout << "exhausted\n"; }
             continue;
         }
+        if (kind == "urbanctor")
+        {   // direct constructor: mat unscaled_mean max_energy two_mebsgs beta_sq
+            int matid; is >> matid;
+            double mean = rd(is), max_e = rd(is), tmb = rd(is), bsq = rd(is);
+            verif::ReplayEngine rng(verif::rdvec(is));
+            MaterialTrackView material(su.materials->host_ref(),
+                                       su.material_state.ref(), TrackSlotId{0});
+            material = {MaterialId(matid)};
+            EnergyLossUrbanDistribution d(su.fluct->host_ref(), material,
+                                          MevEnergy{mean}, MevEnergy{max_e},
+                                          units::MevMass{tmb}, bsq);
+            double loss = 0;
+            long consumed = -1;
+            try { loss = d(rng).value(); consumed = static_cast<long>(rng.consumed()); }
+            catch (verif::StreamExhausted const&) { consumed = -1; }
+            auto const& up = su.fluct->host_ref().urban[MaterialId(matid)];
+            auto mv = material.make_material_view();
+            std::cout << "ok " << consumed << " " << hex(loss) << " "
+                      << hex(mv.mean_excitation_energy().value()) << " "
+                      << hex(mv.log_mean_excitation_energy().value()) << " "
+                      << hex(up.binding_energy[0]) << " " << hex(up.binding_energy[1])
+                      << " " << hex(up.log_binding_energy[0]) << " "
+                      << hex(up.log_binding_energy[1]) << " "
+                      << hex(up.oscillator_strength[0]) << " "
+                      << hex(up.oscillator_strength[1]) << " " << hex(d.max_energy_)
+                      << " " << hex(d.loss_scaling_) << " " << hex(d.binding_energy_[0])
+                      << " " << hex(d.binding_energy_[1]) << " " << hex(d.xs_exc_[0])
+                      << " " << hex(d.xs_exc_[1]) << " " << hex(d.xs_ion_) << "\n";
+            continue;
+        }
         if (kind != "eloss") { std::cout << "unknown\n"; continue; }
         int pid; is >> pid;
+        int matid; is >> matid;
         double energy = rd(is), mean_loss = rd(is), step = rd(is), cut = rd(is);
         verif::ReplayEngine rng(verif::rdvec(is));
 
-        CutoffParams::Input cut_inp{su.particles, su.materials,
-                                    {{pdg::electron(), {{MevEnergy{cut}, 0}}}}};
+        CutoffParams::Input cut_inp{
+            su.particles, su.materials,
+            {{pdg::electron(),
+              {{MevEnergy{cut}, 0}, {MevEnergy{cut}, 0}, {MevEnergy{cut}, 0},
+               {MevEnergy{cut}, 0}}}}};
         auto cutoffs = std::make_shared<CutoffParams>(std::move(cut_inp));
         ParticleTrackView particle(su.particles->host_ref(),
                                    su.particle_state.ref(), TrackSlotId{0});
         particle = {ParticleId(pid), MevEnergy{energy}};
         MaterialTrackView material(su.materials->host_ref(),
                                    su.material_state.ref(), TrackSlotId{0});
-        material = {MaterialId{0}};
-        CutoffView cutoff(cutoffs->host_ref(), MaterialId{0});
+        material = {MaterialId(matid)};
+        CutoffView cutoff(cutoffs->host_ref(), MaterialId(matid));
         EnergyLossHelper helper(su.fluct->host_ref(), cutoff, material,
                                 particle, MevEnergy{mean_loss}, step);
         int model = static_cast<int>(helper.model());
@@ -165,7 +237,20 @@ int main()
             std::cout << " 0x0p+0 0x0p+0 0x0p+0 0x0p+0";
         }
         std::cout << " " << hex(particle.lorentz_factor()) << " "
-                  << hex(particle.mass().value()) << tail.str() << "\n";
+                  << hex(particle.mass().value());
+        {   // material-dependent inputs of the Urban constructor
+            auto const& up = su.fluct->host_ref().urban[MaterialId(matid)];
+            auto mv = material.make_material_view();
+            std::cout << " " << hex(mv.mean_excitation_energy().value()) << " "
+                      << hex(mv.log_mean_excitation_energy().value()) << " "
+                      << hex(up.binding_energy[0]) << " "
+                      << hex(up.binding_energy[1]) << " "
+                      << hex(up.log_binding_energy[0]) << " "
+                      << hex(up.log_binding_energy[1]) << " "
+                      << hex(up.oscillator_strength[0]) << " "
+                      << hex(up.oscillator_strength[1]);
+        }
+        std::cout << tail.str() << "\n";
     }
     return 0;
 }
